@@ -118,10 +118,11 @@ CLAIMED.update({
         text=("Theorems (Coq, all input strings): numeric command arguments and integer literals are accepted iff in range and never panic "
               "(C08_num_arg_in_range/_out_of_range/_no_panic, C08_int_literal_rejects_iff), the expression parser and evaluator have no reachable panic site "
               "(C08_parse_no_panic, C08_eval_no_panic, C08_slice_no_panic with clamping); the panics of the code before the repairs are kept as witnesses. Tie: "
-              "the real console command parser and evaluator on generated and boundary inputs under catch_unwind, compared in Coq."),
+              "the real console command parser and evaluator on generated and boundary inputs under catch_unwind, compared in Coq; every DAP request kind with "
+              "missing / ill-typed / boundary / non-ASCII arguments against a real DebugSession (answered, no panic, session still usable)."),
         ref="DESIGN.md section 5 C08 and section 11",
         technique="Coq proof (totality with explicit Panic values in the model: theorems state that no input reaches one) + differential correspondence under catch_unwind, evaluated by vm_compute",
-        note=TB + " only the command grammar parts listed in DESIGN.md are modelled (numeric arguments, DQE, slices); TUI input handling is not."),
+        note=TB + " only the command grammar parts listed in DESIGN.md are modelled (numeric arguments, DQE, slices); the DAP leg is observational (no model of the handlers); TUI input handling is not covered."),
     "C09": dict(
         text=("Theorems (Coq, any number of threads, every schedule of the abstract ptrace kernel, any breakpoint table): Tracer::resume keeps the coupling "
               "invariant between the tracer's table and the kernel's thread states and, whenever it reports a breakpoint / watchpoint / non-quiet signal, "
